@@ -162,3 +162,22 @@ fn eisa_name_refuses_bad_digit() {
     let _e = EISAName::new(s);
     assert!(false, "VERIF-RETURNED: out-of-range input was not refused");
 }
+
+/// refusal harness: a string whose length is not 7 is refused, whatever its characters -- BOUNDED:
+/// ASCII strings of 0..=9 bytes (a longer id with a valid 7-character prefix must not be truncated)
+#[kani::proof]
+#[kani::unwind(11)]
+fn eisa_name_refuses_wrong_length() {
+    let raw: [u8; 9] = kani::any();
+    let n: usize = kani::any();
+    kani::assume(n <= 9 && n != 7);
+    let mut i = 0;
+    while i < 9 {
+        kani::assume(raw[i] < 128);
+        i += 1;
+    }
+    // SAFETY: ASCII bytes are valid UTF-8
+    let s = unsafe { core::str::from_utf8_unchecked(&raw[..n]) };
+    let _e = EISAName::new(s);
+    assert!(false, "VERIF-RETURNED: an id of the wrong length was not refused");
+}
